@@ -21,7 +21,6 @@ THEOREMS = ["join_success_before_finish_refuted",
             "join_detached_fails",
             "reclaim_once_after_finish_and_release",
             "no_touch_after_reclaim_refuted",
-            "no_touch_after_reclaim_partial",
             "join_detach_race_strands_target_refuted"]
 JOIN, TRY, DETACH, YIELD, FINISH = 1, 2, 3, 4, 5
 OPNAME = {JOIN: "join", TRY: "tryjoin", DETACH: "detach", YIELD: "yield", FINISH: "finish"}
@@ -82,9 +81,16 @@ def analyse(case, tr):
         k = nret[t]
         return progs[t][k][0] if k < len(progs[t]) else None
 
+    misuse_idx = None              # first access of a handle call issued after the handle was given up
     for idx, (t, loc, kind, val) in enumerate(tr):
         if kind == 919 and loc == 0 and val in (7, 8):
             continue
+        if (kind not in (909, 919) and op_first[t] is None and handle_release_idx is not None
+                and cur_op(t) in (JOIN, TRY, DETACH)):
+            # only possible in unguarded mode: the caller uses a handle it has given up (API misuse);
+            # what happens from here on is outside the property
+            misuse_idx = idx
+            break
         if kind == 909:
             k = loc - 1
             op = progs[t][k][0] if 0 <= k < len(progs[t]) else None
@@ -171,7 +177,7 @@ def analyse(case, tr):
                 took_joiner_by[j] = (t, op)
 
     # stuck threads
-    for (t, loc, kind, val) in tr:
+    for (t, loc, kind, val) in ([] if misuse_idx is not None else tr):
         if kind == 919 and loc == 0 and val in (7, 8):
             evs = last_ev.get(t, [])
             spinning_cw = val == 8 and len([e for e in evs[-12:] if e[0] == L_JI and e[1] == 45 and e[2] == 0]) >= 2
@@ -197,6 +203,9 @@ def analyse(case, tr):
                         j, OPNAME[took_joiner_by[j][1]], took_joiner_by[j][0])
                 out.append(("%s spins forever in clear_or_wait on an empty join_info%s%s"
                             % (who, " of the reclaimed fiber" if reclaim_idx is not None and t != 0 else "", extra), cause))
+            elif val == 7 and t == 0 and finished is not None and (detach_done or successes):
+                out.append(("the finished target stays blocked forever although it was %s: it is never reclaimed"
+                            % ("detached" if detach_done else "joined"), None))
             elif val == 7 and t != 0 and reclaim_idx is not None:
                 out.append(("thread %d stays blocked in %s although the target was reclaimed" % (t, OPNAME.get(op, "?")), None))
     for (t, op, loc, began) in touched[:1]:
@@ -204,7 +213,7 @@ def analyse(case, tr):
         out.append(("thread %d (%s) accessed field %d of the target after the fiber was reclaimed%s"
                     % (t, OPNAME.get(op, "?"), loc,
                        " [the call had started before the handle was released]" if began else
-                       " [unguarded call issued after the handle was released]"), cause))
+                       " [call issued after the handle was released]"), cause if began else None))
     return out
 
 
